@@ -156,9 +156,16 @@ def run(ctx):
         code = (kid >> 28) & 7
         if UBX_CONFIG_STORSIZE.get(code) != int(ty[1:4]):
             ctx.fail("size-code-mismatch", {"op": "CFGDB", "name": name}, "storage size of size code %d" % code, ty)
-        if cfgname2key(name) != (kid, ty):
-            ctx.fail("name2key", {"op": "CFGDB", "name": name}, (kid, ty), cfgname2key(name))
-        back = cfgkey2name(kid)
+        try:
+            n2k = cfgname2key(name)
+        except Exception as e:  # pylint: disable=broad-except
+            n2k = "%s: %s" % (type(e).__name__, str(e)[:60])
+        if n2k != (kid, ty):
+            ctx.fail("name2key", {"op": "CFGDB", "name": name}, (kid, ty), n2k)
+        try:
+            back = cfgkey2name(kid)
+        except Exception as e:  # pylint: disable=broad-except
+            back = "%s: %s" % (type(e).__name__, str(e)[:60])
         if back != (name, ty):
             ctx.fail("lookup-not-inverse", {"op": "CFGDB", "name": name, "id": hex(kid)}, (name, ty), back)
             ctx.failures[-1]["keyid"] = kid
